@@ -210,6 +210,7 @@ func (server *Server) close() error {
 
 // serve handles client connections.
 func (server *Server) serve() error {
+	defer verifPoint("serve.exit", nil)
 	defer server.close()
 
 	l := server.portListener
@@ -232,6 +233,7 @@ func (server *Server) serve() error {
 
 // tlsServe handles client connections with TLS.
 func (server *Server) tlsServe() error {
+	defer verifPoint("tlsserve.exit", nil)
 	defer server.close()
 	l := server.tlsPortListener
 	verifPoint("tlsserve.enter", l)
@@ -284,6 +286,7 @@ func (server *Server) receive(conn net.Conn, tlsState *tls.ConnectionState) erro
 
 	verifPoint("recv.before-register", handlerConn)
 	server.AddConn(handlerConn)
+	verifPoint("recv.registered", handlerConn)
 	defer func() {
 		server.RemoveConn(handlerConn)
 		verifPoint("recv.after-deregister", handlerConn)
